@@ -178,6 +178,16 @@ def replay_filter_run(ctx, rep, case):
 # ------------------------------------------------------------------------------------------------
 # C03 / C13 : controller replay
 
+def _same_num(a, b):
+    """equality of two observed numbers; NaN equals NaN (a degenerate surrogate hands NaN estimates on unchanged)"""
+    try:
+        if isinstance(a, float) and isinstance(b, float) and math.isnan(a) and math.isnan(b):
+            return True
+    except TypeError:
+        pass
+    return a == b
+
+
 def ctl_extract(t):
     """Per-iteration oracle outcomes and observed states of one trace. Returns None if the run did not reach the loop."""
     ev = t["events"]
@@ -216,6 +226,7 @@ def ctl_extract(t):
             "expand": int(h["search_mesh_expand"]), "incr": 1}
     tol_fun = s0["tol_fun"]
     outs, obs = [], []
+    nan_zs = 0
     for k, it in enumerate(iters):
         o = {"search": None, "zs": [], "newRows": 0, "thr": "0", "stallMesh": False, "stallStop": False}
         ob = {"start": it["start"], "ranSearch": it["srch"] is not None, "ranPoll": it["poll"] is not None}
@@ -231,7 +242,10 @@ def ctl_extract(t):
             p = it["poll"]
             n = p["post"]["fc"] - p["pre"]["fc"]
             zs = [e["z"] for e in p["ei"] if e["phase"] == "poll"]
-            o["zs"] = [enc(z) for z in zs[:n]]
+            # a NaN improvement (non-finite GP prediction: degenerate surrogate) compares False with everything, exactly like -1 against the
+            # non-negative threshold and against 0: the controller model gets -1
+            nan_zs += sum(1 for z in zs[:n] if isinstance(z, float) and math.isnan(z))
+            o["zs"] = [enc(z) if not (isinstance(z, float) and math.isnan(z)) else "-1" for z in zs[:n]]
             o["newRows"] = p["post"]["nrec"] - p["pre"]["nrec"]
             o["thr"] = enc(p["thr"])
             o["stallMesh"] = bool(len(zs) > n and zs[n] < tol_fun)
@@ -253,7 +267,7 @@ def ctl_extract(t):
                                                    "i.e. from the raw observation instead of the GP estimate at the polled point")
                             break
                 for e in (eis[:n] if ob["ei_inputs_bad"] is None else []):
-                    if e["f_base"] != p["pre"]["fval"] or (e["s_base"] is not None and e["s_base"] != p["pre"]["fsd"]):
+                    if not _same_num(e["f_base"], p["pre"]["fval"]) or (e["s_base"] is not None and not _same_num(e["s_base"], p["pre"]["fsd"])):
                         ob["ei_inputs_bad"] = ("improvement_inputs", f"poll improvement computed against ({e['f_base']}, {e['s_base']}) but the incumbent estimate at poll start is ({p['pre']['fval']}, {p['pre']['fsd']})")
                         break
                 if len(eis) > n and ob["ei_inputs_bad"] is None:
@@ -262,7 +276,7 @@ def ctl_extract(t):
                     idx = p["pre"]["it"] - int(h["accelerate_mesh_steps"])
                     want = (hb["fval"].get(idx), hb["fsd"].get(idx), p["post"]["fval"], p["post"]["fsd"])
                     got = (a["f_base"], a["s_base"], a["f_new"], a["s_new"])
-                    if want[0] is not None and got != want:
+                    if want[0] is not None and not all(_same_num(g_, w_) for g_, w_ in zip(got, want)):
                         ob["ei_inputs_bad"] = ("stall_inputs", f"stalling judged on (f_base, s_base, f_new, s_new)={got}; the estimates recorded {int(h['accelerate_mesh_steps'])} iterations ago and the current incumbent estimate are {want}")
         # termination stall test: the scalar _eval_improvement_ call made in the main loop body
         sc = [e for e in it["ei_main"] if not e["vec"]]
@@ -273,7 +287,7 @@ def ctl_extract(t):
     # calls after the loop (final re-sampling) are CALL events after the last ITER in phase 'pre'
     last_iter_idx = max(i for i, (k, _) in enumerate(ev) if k == "ITER")
     tail_calls = [e for k, e in ev[last_iter_idx:] if k == "CALL" and e["phase"] == "pre"]
-    return {"opts": opts, "init": {"fc": s0["fc"], "nRec": s0["nrec"], "msi": s0["msi"]}, "outs": outs, "obs": obs,
+    return {"nan_zs": nan_zs, "opts": opts, "init": {"fc": s0["fc"], "nRec": s0["nrec"], "msi": s0["msi"]}, "outs": outs, "obs": obs,
             "tail_calls": tail_calls, "iters": len(iters)}
 
 
@@ -304,7 +318,7 @@ def ctl_replay(ctx, rep, pid):
         items.append((ti, x))
     res = ctx.driver.call_many([{"cmd": "ctl.replay", "opts": x["opts"], "init": x["init"], "outs": x["outs"]} for _, x in items])
     stats = {"runs": 0, "iterations": 0, "polls": 0, "searches": 0, "poll_success": 0, "poll_fail": 0, "quartered": 0, "skipped_polls": 0,
-             "msgs": {}, "empty_search": 0}
+             "msgs": {}, "empty_search": 0, "nan_improvements": sum(x.get("nan_zs", 0) for _, x in items)}
     samples = []
     for (ti, x), r in zip(items, res):
         t = traces[ti]
@@ -1031,7 +1045,7 @@ def _c19_predicates(rep, t, x, case, tag):
 def det_extract(t):
     """Oracle stream and initial state of one deterministic traced run for `det.replay` (None if not applicable)."""
     x = ctl_extract(t)
-    if x is None:
+    if x is None or x.get("nan_zs"):
         return None
     ev = t["events"]
     ftab, init_log, iters, cur = {}, [], [], None
@@ -1158,7 +1172,7 @@ def det_replay(ctx, rep):
 def full_extract(t):
     x = ctl_extract(t)
     nx = noisy_extract(t) if x is not None else None
-    if x is None or nx is None:
+    if x is None or nx is None or x.get("nan_zs"):
         return None
     ev = t["events"]
     init_pairs, iters, cur = [], [], None
